@@ -342,6 +342,55 @@ def check_helpers(run, helpers):
     return n
 
 
+def interface_lookup_exact(run):
+    """Interfaces are looked up by the layer's class itself: with a layer class and a subclass of it in one stack (in either order, as
+    plain layers or as members of a parallel group), each class finds the interface of its own instance."""
+    from yowsup.layers import YowLayer, YowLayerInterface, YowParallelLayer
+    from yowsup.stacks import YowStack
+
+    class Base(YowLayer):
+        def __init__(self):
+            YowLayer.__init__(self)
+            self.interface = YowLayerInterface(self)
+
+    class Sub(Base):
+        pass
+
+    class Other(YowLayer):
+        pass
+    shapes = {"sub-below-base": (Sub, Other, Base), "base-below-sub": (Base, Other, Sub),
+              "group(sub,base)": (Other, YowParallelLayer((Sub, Base))), "group(base,sub)": (Other, YowParallelLayer((Base, Sub))),
+              "sub-below-group(base)": (Sub, YowParallelLayer((Other, Base))), "group(sub)-below-base": (YowParallelLayer((Sub, Other)), Base)}
+    for name, layers in shapes.items():
+        run.case(("interface-exact", name))
+        try:
+            st = YowStack(layers, reversed=False)
+            insts = {}
+            i = 0
+            while True:
+                try:
+                    l = st.getLayer(i)
+                except IndexError:
+                    break
+                for x in (l.sublayers if isinstance(l, YowParallelLayer) else (l,)):
+                    insts[type(x)] = x
+                i += 1
+            for cls in (Base, Sub):
+                got = st.getLayerInterface(cls)
+                if got is not insts[cls].interface:
+                    run.violation("interface:by-class:subclass", "stack %s: getLayerInterface(%s) returned the interface of %s" % (
+                        name, cls.__name__, type(got._layer).__name__ if got is not None and hasattr(got, "_layer") else got), {"shape": name})
+                    break
+                via = insts[Other].getLayerInterface(cls)
+                if via is not insts[cls].interface:
+                    run.violation("interface:by-class:subclass", "stack %s: a layer asking for the interface of %s got another layer's" % (name, cls.__name__), {"shape": name})
+                    break
+        except core.TooManyViolations:
+            raise
+        except Exception as e:
+            run.violation("interface:exception:%s" % type(e).__name__, "stack %s: interface lookup raised %r" % (name, e), {"shape": name})
+
+
 def run():
     r = core.Run("C18", "model_checking")
     thorough = r.tier == "thorough"
@@ -398,6 +447,7 @@ def run():
     check_helpers(r, helpers[0]["helpers"])
     r.assumptions += core.ENV_ASSUMPTIONS[:1] + ["stack loop is stepped by rebinding yowsup.stacks.yowstack.time (sleep raises after one iteration)",
                       "members of a group after a consuming member, and siblings of an emitting member, are compared as don't-care (at most once)"]
+    interface_lookup_exact(r)
     return r.finish()
 
 
